@@ -387,11 +387,17 @@ def gen_scope(count, seed, first_id=3500):
             main.append(op("sspawn", v=c))
             if rng.random() < 0.5:
                 main += gen_task(rng, ["load", "store", "yield"], 1, env, {})
+        # sometimes a scoped thread is joined from inside the scope body
+        for c in range(1, n):
+            if rng.random() < 0.35:
+                main.append(op("join", v=c))
+                if rng.random() < 0.5:
+                    main += gen_task(rng, ["load", "store"], 1, env, {})
         main.append(op("scope_end"))
         main += bodies[0]
         pr = prog(first_id + i, "scope", [main] + bodies[1:], nmutex=1, atomics=[0])
-        pr["tls_touch"] = [rng.choice([-1, 1]), -1, -1]
-        pr["tls_yield"] = [rng.choice([0, 1]), 0, 0]
+        pr["tls_touch"] = [rng.choice([-1, 1]), rng.choice([-1, -1, 2]), -1]
+        pr["tls_yield"] = [rng.choice([0, 1]), rng.choice([0, 0, 1]), rng.choice([0, 0, 1])]
         out.append(pr)
     return out
 
